@@ -34,7 +34,7 @@ _T = {}
 
 def totality(ctx, config):
     if config not in _T:
-        _T[config] = total.Totality(ctx.prog(config), ctx.table("total"))
+        _T[config] = total.Totality(ctx.prog(config), ctx.table("total"), cfg_set=ctx.cfgs())
     return _T[config]
 
 
